@@ -452,7 +452,7 @@ func (sh *shape) str(s string) {
 		sh.excl["F13"] = true
 	}
 	if goQuoteNotJSON(s) {
-		sh.excl["N1-goquote"] = true
+		sh.excl["F26-goquote"] = true
 	}
 }
 
@@ -504,14 +504,14 @@ func (sh *shape) walk(v interface{}, depth int, inArray, root bool) {
 			sh.sub["int64_bound"] = true
 		}
 		if longNotFloat(x) {
-			sh.excl["N2-long53"] = true
+			sh.excl["F27-long53"] = true
 		}
 	case float64:
 		sh.kinds["double"] = true
 		switch {
 		case math.IsNaN(x) || math.IsInf(x, 0):
 			sh.sub["double_nan_inf"] = true
-			sh.excl["N3-naninf"] = true
+			sh.excl["F28-naninf"] = true
 		case x == 0 && math.Signbit(x):
 			sh.sub["double_negzero"] = true
 		case x != 0 && (math.Abs(x) >= 1e21 || math.Abs(x) < 1e-6):
@@ -528,7 +528,7 @@ func (sh *shape) walk(v interface{}, depth int, inArray, root bool) {
 	case gotime.Time:
 		sh.kinds["date"] = true
 		if yearUnparseable(x) {
-			sh.excl["N5-year"] = true
+			sh.excl["F30-year"] = true
 		}
 		if x.Nanosecond()%1e6 != 0 {
 			sh.sub["date_submilli"] = true
@@ -542,7 +542,7 @@ func (sh *shape) walk(v interface{}, depth int, inArray, root bool) {
 			_ = t
 			// a nested object with a string member "type" is read back as a
 			// typed value (Int/Long/BinData/…) or rejected
-			sh.excl["N4-typekey"] = true
+			sh.excl["F29-typekey"] = true
 		}
 		for k, c := range x {
 			if isHostile(k) {
@@ -571,7 +571,7 @@ func (sh *shape) walk(v interface{}, depth int, inArray, root bool) {
 		case crdt.LongCnt:
 			sh.sub["counter_long"] = true
 			if l, ok := x.Value.(int64); ok && longNotFloat(l) {
-				sh.excl["N2-long53"] = true
+				sh.excl["F27-long53"] = true
 			}
 		case crdt.IntegerDedupCnt:
 			sh.sub["counter_dedup"] = true
